@@ -405,6 +405,7 @@ def cases(tier):
         ('volume', [('compound', U, False), ('group', K, False)], None, None),
         ('weight', [('compound', K, False), ('atom', K, False), ('group', K, False)], (1,), None),
         ('volume', [('compound', K, False), ('group', U, False)], (1,), None),
+        ('weight', [('compound', K, False), ('compound', U, False), ('group', K, False)], (1,), None),
         ('weight', [('compound', K, False)], None, None),
         ('weight', [('compound', K, False), ('group', K, False)], None, 'density'),
         ('volume', [('compound', K, False), ('group', K, False)], None, 'natural_density'),
